@@ -270,6 +270,11 @@ def h_m_new(w, st, rec):
                     spec[k] = enc(np.array(getattr(obj, attr), copy=True))
             spec["seed"] = None
         refs = [rec[k]["__ref__"] for k in PARAMS[mtype] if is_ref(rec[k])]
+        if rec.get("born"):
+            # the caller's long-lived model IS a deep copy / an unpickled copy of the constructed one
+            from .apis import clone
+            obj = clone(obj, rec["born"])
+            w.probes["model.lives_as_a_" + rec["born"]] += 1
         register_model(w, st, rec["id"], mtype, obj, spec, refs)
         if any(sum(1 for mm in st.models.values() if r in mm["bufs"]) >= 2 for r in refs):
             w.probes["two_models_from_one_caller_array"] += 1
@@ -1193,6 +1198,8 @@ def gen_model(g, gs, cfg, ops, c, invalid=False):
         rec["invalid"] = True
     if mtype in ("lganm", "anm") and g.random() < 0.1:
         rec["bykw"] = True
+    if not invalid and g.random() < 0.1:
+        rec["born"] = g.choice(["deepcopy", "pickle"])
     ops.append(rec)
     if not invalid:
         gs.models[mid] = {"type": mtype, "p": len(W) if W is not None else p, "bufs": bufs, "derived": False}
@@ -1512,6 +1519,9 @@ def generate(run_seed, deep=False):
                     cfg["types"] = [mt]
                     gen_model(g, gs, cfg, ops, c)
                     cfg["types"] = saved
+                elif g.random() < 0.3:
+                    from .world import IMPORTABLE
+                    ops.append({"c": c, "op": "py.import", "module": g.choice(IMPORTABLE)})
                 else:
                     ops.append({"c": c, "op": "gc"})
             elif gs.agenda:
